@@ -32,7 +32,7 @@ M0 == [calls |-> <<>>,        \* k -> call record (function with a growing domai
        stalled |-> {},        \* transport writes that are blocked because the peer stopped draining
        notices |-> {},        \* wire ids named by cancellation notices handed to the transport
        notifOk |-> {},        \* refs of notifications the transport accepted
-       listens |-> {},        \* wire ids of subscriptions/listen calls (parked by the SDK until cancelled; answered then)
+       listens |-> {}, listenResp |-> {},        \* wire ids of subscriptions/listen calls (parked by the SDK until cancelled; answered then)
        respBegun |-> {},      \* request tags whose response has been handed to the transport
        usable |-> TRUE]       \* no Close, fault or reader error so far
 
@@ -97,10 +97,12 @@ OnWrBegin(e) ==
 OnWrEnd(e) ==
   LET bad == e.outcome \in {"broken", "rejected"} IN
   /\ Check(l, "C02.AnsweredAtMostOnce",
-           (e.kind = "resp" /\ e.outcome = "ok" /\ m.ready) => Idn(e.id).resp + 1 <= Idn(e.id).deliv)
+           (e.kind = "resp" /\ e.outcome = "ok" /\ m.ready) =>
+               IF e.id \in m.listens THEN e.id \notin m.listenResp ELSE Idn(e.id).resp + 1 <= Idn(e.id).deliv)
   /\ m' = [m EXCEPT !.stalled = @ \ {e.w}, !.fault = @ \/ (bad /\ m.ready), !.broken = @ \/ (e.outcome = "broken" /\ m.ready),
                     !.usable = @ /\ ~(bad /\ m.ready),
-                    !.idn = IF e.kind = "resp" /\ e.outcome = "ok" /\ m.ready THEN Put(m.idn, e.id, [Idn(e.id) EXCEPT !.resp = @ + 1]) ELSE @,
+                    !.idn = IF e.kind = "resp" /\ e.outcome = "ok" /\ m.ready /\ e.id \notin m.listens THEN Put(m.idn, e.id, [Idn(e.id) EXCEPT !.resp = @ + 1]) ELSE @,
+                    !.listenResp = IF e.kind = "resp" /\ e.outcome = "ok" /\ e.id \in m.listens THEN @ \cup {e.id} ELSE @,
                     !.notifOk = IF e.kind = "notif" /\ e.outcome = "ok" THEN @ \cup {e.ref} ELSE @,
                     !.calls = IF e.kind = "call" /\ e.outcome = "ok" /\ e.ref # ""
                               THEN Put(m.calls, e.ref, [Call(e.ref) EXCEPT !.written = TRUE]) ELSE @]
